@@ -129,6 +129,13 @@ func runC15(c *an.Check) {
 			}
 			guard = fld
 		}
+		if guard != "" {
+			// the re-execution path (result already recorded) must not consult outside services
+			imp := impureCallsIn(w, fn, alreadyDoneRegion(w, fn, guard))
+			c.Decide(len(imp) == 0, "C15.R1", cons+" already-done path", w.Pos(in.Pos()),
+				"when "+guard+" is already recorded the action decides from the persisted record alone",
+				"when "+guard+" is already recorded (re-execution after a restart) the action still calls outside services before it returns: "+strings.Join(imp, "; ")+" - a failure or a changed answer there fails an action whose irreversible effect already happened")
+		}
 		c.Decide(guard != "", "C15.R1", cons, w.Pos(in.Pos()),
 			"guarded by persisted field "+guard+" which this function assigns after the effect",
 			fmt.Sprintf("this irreversible call is re-executed by Recover (states %s are not FailOnrecover) and no guard on a persisted result field protects it: a crash after the post-action store write and before the next state is stored repeats it. Facts that hold: %s", strings.Join(usedBy[in], ", "), an.DescribeFacts(facts)))
